@@ -93,6 +93,7 @@ func (ex *Exec) callWithContract(fi *FuncInfo, blk *Block, recv Value, args []Va
 	if ex.suppress > 0 && !blk.Opaque {
 		return nil, false
 	}
+	opaque := blk.Opaque && !ex.forceInline[blk.Key()]
 	hasReq := false
 	for _, c := range blk.Clauses {
 		if c.Kind == "requires" {
@@ -109,7 +110,7 @@ func (ex *Exec) callWithContract(fi *FuncInfo, blk *Block, recv Value, args []Va
 			ex.assert(st, "call."+blk.Key()+".requires", g, site.Pos(), "precondition of "+key+": "+c.Text)
 		}
 	}
-	if !blk.Opaque {
+	if !opaque {
 		if hasReq {
 			// internal obligations of the callee are proved under its requires in its own block
 			ex.usedContracts[key] = true
@@ -132,11 +133,26 @@ func (ex *Exec) callWithContract(fi *FuncInfo, blk *Block, recv Value, args []Va
 	saveOld := ex.oldState
 	pre := st.fork(st.pc)
 	ex.oldState = pre
+	resG := res
+	if len(blk.Ghosts) > 0 {
+		// universally quantified postcondition variables: one arbitrary instance is assumed
+		resG = append([]Value(nil), res...)
+		for _, c := range blk.Clauses {
+			if c.Kind == "ensures" {
+				esig := ex.clauseSig(fi, c)
+				for gi, g := range blk.Ghosts {
+					pt := esig.Params().At(esig.Params().Len() - len(blk.Ghosts) + gi).Type()
+					resG = append(resG, ex.havocValue(blk.Key()+".ghost."+g[0], pt, st))
+				}
+				break
+			}
+		}
+	}
 	for _, c := range blk.Clauses {
 		if c.Kind != "ensures" {
 			continue
 		}
-		g := ex.callClause(fi, c, recv, args, res, st, site)
+		g := ex.callClause(fi, c, recv, args, resG, st, site)
 		ex.assume(st, g)
 	}
 	ex.oldState = saveOld
@@ -147,6 +163,18 @@ func (ex *Exec) callWithContract(fi *FuncInfo, blk *Block, recv Value, args []Va
 		return res[0], true
 	}
 	return &TupleV{Vals: res}, true
+}
+
+func (ex *Exec) clauseSig(fi *FuncInfo, c *Clause) *types.Signature {
+	recvName := ""
+	if sig := fi.Obj.Type().(*types.Signature); sig.Recv() != nil {
+		recvName = recvTypeName(sig.Recv().Type())
+	}
+	cf := ex.prog.FuncByKey[funcKey(fi.Pkg.PkgPath, recvName, c.Name)]
+	if cf == nil {
+		unsupported("clause function %s not found", c.Name)
+	}
+	return cf.Obj.Type().(*types.Signature)
 }
 
 // callClause evaluates a generated requires/ensures function on concrete argument values.
